@@ -449,7 +449,8 @@ def scan_line_height(rep, F):
     rep.rule("R12.6", "polygon interior point: the scan line's height is the bounding box's mid-height y0, or y0 + k*(c - y0) with a constant 0 < k < 1 for the height c of the next-closest vertex (polynomial identity on every path)")
     try:
         fn = F.one(r"^geo::algorithm::interior_point::polygon_interior_point_with_segment_length$", crates=("geo",))
-        ps = Symex(F, inline_crates=(), loop_bound=1, max_paths=5000).run(fn)
+        # private helpers of the interior_point module are inlined (an extracted `scan_line_y(..)` is the same code); everything else stays a symbol
+        ps = Symex(F, inline_crates=("geo",), no_inline=[r"^(?!geo::algorithm::interior_point::)"], loop_bound=1, max_paths=5000).run(fn)
     except (KeyError, Unanalysable) as e:
         rep.bad("R12.6", "scan-height:anchor", str(e))
         return
